@@ -27,7 +27,7 @@ From CGV Require Import Dialect.DialectImpl Reader.ReaderImpl Reader.Grammar.
 From CGV Require Import Write.TreeDefs Write.TreeWrite Write.TreeTables Write.DfsProofs Write.WfFacts Write.ConnFacts Write.TreeRead
      Write.TreeRound Write.RingDefs Write.RingWrite Write.RingTables Write.RingMarkers Write.RingClose Write.RingRead Write.RingRound.
 From CGV Require Import Reader.Lin.
-From CGV Require Import Write.GraphOps Write.FlatMachine Write.FullMachine Write.FullRound.
+From CGV Require Import Write.GraphOps Write.FlatMachine Write.FullMachine Write.FullRound Write.ContractBridge.
 Import ListNotations.
 Open Scope Z_scope.
 
@@ -225,6 +225,19 @@ Theorem C07_roundtrip : forall fo A g tr start,
         exists s h, write_cgsmiles_graph g tr = Ok s /\ read_cgsmiles fo s = Ok h /\ graph_iso A g h).
 Proof. exact FullRound.C07_roundtrip. Qed.
 
+(** the same with the contract in the boolean form the check evaluates on every case ([ring_contract]) *)
+Theorem C07_roundtrip_contract : forall fo A g tr start,
+  plain_graph g = true -> connected g = true -> min_node g = Ok start ->
+  ring_contract g (dfs_tree g) tr = true ->
+  (forall k, In k (node_keys g) -> name_ok fo (name_of g k) = true) ->
+  (forall k, parse_graph_base_node fo (name_of g k) = Ok (A k)) ->
+  exists T, rkey T = start /\ dfs_edges g start = Ok (redges T) /\ NoDup (rkeys T)
+    /\ (forall x, In x (rkeys T) <-> In x (node_keys g))
+    /\ (rings_plain (the_items (name_of g) (esym_of g) (rsym_of g tr) T tr) = true ->
+        exists s h, write_cgsmiles_graph g tr = Ok s /\ read_cgsmiles fo s = Ok h /\ graph_iso A g h).
+Proof. exact ContractBridge.C07_roundtrip_contract. Qed.
+
+Print Assumptions C07_roundtrip_contract.
 Print Assumptions C07_roundtrip.
 Print Assumptions C07_tree_roundtrip.
 Print Assumptions C07_rings_reader_sim_partial.
